@@ -34,7 +34,7 @@ var global struct {
 }
 
 // Refresh loads a logging configuration from a *flatten.Storage.
-func Refresh(data map[string]string) error {
+func Refresh(data map[string]string) (err error) {
 
 	s, err := toStorage(data)
 	if err != nil {
@@ -61,6 +61,20 @@ func Refresh(data map[string]string) error {
 		return errutil.Explain(nil, "log refresh already done")
 	}
 	global.init = true
+
+	// A failed refresh must not leave a half-installed configuration behind:
+	// stop what was started, unbind tags and handles, and allow a new attempt.
+	var started []Lifecycle
+	defer func() {
+		if err == nil {
+			return
+		}
+		for i := len(started) - 1; i >= 0; i-- {
+			started[i].Stop()
+		}
+		unbindLoggers()
+		global.init = false
+	}()
 
 	// Factory function to create plugin instances
 	newPlugin := func(typ PluginType, typeKey string) (reflect.Value, error) {
@@ -172,6 +186,7 @@ func Refresh(data map[string]string) error {
 		if err := a.Start(); err != nil {
 			return errutil.Stack(err, "appender %s start error", a.GetName())
 		}
+		started = append(started, a)
 	}
 
 	// Start all loggers
@@ -179,6 +194,7 @@ func Refresh(data map[string]string) error {
 		if err := l.Start(); err != nil {
 			return errutil.Stack(err, "logger %s start error", l.GetName())
 		}
+		started = append(started, l)
 	}
 
 	// Update logger references in `loggerMap`
